@@ -182,6 +182,17 @@ let () =
       Printf.sprintf "cd=%s dim=%s ty=%s r=%s,%s,%s,%s,%s" (sl cd) (hz dim) (hz dty) (hz q5) (hz q4) (hz q3) (hz q2) (hz q1)
     | _ -> failwith "cdcopy")
 
+(* ---------------- C14 ---------------- *)
+let () =
+  reg "tr" (fun a -> match a with
+    | [_ty; dims; vals] ->
+      let (_r5, r4, r3, r2, r1) = dims5 dims in
+      let l = zlist_of_string vals in
+      let dim = z_of_int (if r2 = Z0 then 1 else if r3 = Z0 then 2 else if r4 = Z0 then 3 else 4) in
+      let t = transpose dim r4 r3 r2 r1 l in
+      Printf.sprintf "tr=%s back=%s" (String.concat "," (List.map hz t)) (String.concat "," (List.map hz (detranspose dim r4 r3 r2 r1 t)))
+    | _ -> failwith "tr")
+
 let () =
   (try
     while true do
